@@ -95,6 +95,14 @@ def _masked_iadd(z):
     return y
 
 
+def _out_broadcast(z):
+    """np.add(one time sample of z, 1, out=<signal of the full length>): the operands broadcast up to the output."""
+    t = type(z).like(z, z.data.copy())
+    r = np.add(z[:1], 1, out=t)
+    assert r is t
+    return t
+
+
 def _weights(z):
     w = np.arange(1, z.shape[-1] + 1) / 4 + 0.5
     return (w + 0.25j).astype(np.complex128) if z.dtype.kind == "c" else w.astype(np.float64)
@@ -186,6 +194,11 @@ OPS = [
     ("comparison with dtype=bool", lambda z: z.dtype.kind == "f", lambda z: np.less(pb.Signal(z.data, sample_rate=z.sample_rate), 0.1, dtype=bool)),
     ("np.add with dtype=float32 and a list operand", lambda z: z.dtype.kind == "f" and z.ndim == 1,
      lambda z: np.add(z, [0.1] * len(z), dtype=np.float32)),
+    ("ufunc with dtype= and a Python scalar operand under casting='safe'", lambda z: z.dtype.kind == "f",
+     lambda z: np.add(_single(z), 1.5, dtype=np.float32, casting="safe")),
+    ("ERR ufunc with casting='no' on operands of two widths", lambda z: z.dtype.kind == "f",
+     lambda z: np.add(_single(z), np.ones(z.shape[-1:], dtype=np.float64), casting="no")),
+    ("out= larger than the broadcast operands", floaty, lambda z: _out_broadcast(z)),
     ("in-place multiply by double-precision weights", floaty, lambda z: _imul(z, _weights(z))),
     ("in-place add of a float64 array", floaty, lambda z: _imul(z, 1.0) if False else _iadd(z)),
     ("masked in-place add (out= with where=) of a float64 array into single-precision data", floaty, lambda z: _masked_iadd(z)),
